@@ -235,6 +235,11 @@ class HierDictDocument(DictDocument):
                 retval = self._doc_to_object(ctx, cls, inst, validator)
 
             else:
+                # the data of a file that is not sent as an object is text
+                if inst is not None and not isinstance(inst,
+                                                    self.VALID_UNICODE_SOURCES):
+                    raise ValidationError([key, inst])
+
                 retval = self.from_serstr(cls, inst, self.binary_encoding)
 
         else:
